@@ -22,6 +22,8 @@ import (
 	"fmt"
 	"go/ast"
 	"go/token"
+	"os"
+	"path/filepath"
 	"strconv"
 	"strings"
 )
@@ -111,6 +113,82 @@ type site struct{ kind, base, index string }
 type loopFact struct {
 	header string
 	exits  int
+}
+
+// pkgFunc finds the plain (receiver-less) function `name` in the package directory of `rel`
+func pkgFunc(rel, name string) (*File, *ast.FuncDecl) {
+	dir := filepath.Dir(rel)
+	ents, err := os.ReadDir(filepath.Join(*repo, dir))
+	if err != nil {
+		return nil, nil
+	}
+	for _, e := range ents {
+		n := e.Name()
+		if !strings.HasSuffix(n, ".go") || strings.HasSuffix(n, "_test.go") || strings.HasPrefix(n, "export_verif") {
+			continue
+		}
+		f := load(filepath.Join(dir, n))
+		if f == nil {
+			continue
+		}
+		for _, d := range f.f.Decls {
+			if fd, ok := d.(*ast.FuncDecl); ok && fd.Recv == nil && fd.Name.Name == name && fd.Body != nil {
+				return f, fd
+			}
+		}
+	}
+	return nil, nil
+}
+
+// functions with ties of their own (C15 / C16): their sites are not repeated in their callers' lists
+var robustOwnTies = map[string]bool{"ParsePackageIndex": true, "ParseInstalled": true, "ParseVersion": true, "ResolvePackageNameVersionPin": true,
+	"cachedResolvePackageNameVersionPin": true, "cachedParseVersion": true}
+
+// robustFactsDeep: the facts of fd plus those of the package-local helper functions it calls (transitively),
+// the helpers' sites / guards / loops prefixed with "<helper>: " — a length check or an index expression moved
+// into (or introduced by) a helper stays visible in the caller's lists
+func (f *File) robustFactsDeep(rel string, fd *ast.FuncDecl, targets map[string]bool) (sites []site, lens []lenGuard, prefs []prefixGuard, loops []loopFact) {
+	sites, lens, prefs, loops = f.robustFacts(fd)
+	seen := map[string]bool{fd.Name.Name: true}
+	var follow func(cf *File, cfd *ast.FuncDecl, depth int)
+	follow = func(cf *File, cfd *ast.FuncDecl, depth int) {
+		if depth > 3 {
+			return
+		}
+		ast.Inspect(cfd.Body, func(n ast.Node) bool {
+			ce, ok := n.(*ast.CallExpr)
+			if !ok {
+				return true
+			}
+			id, ok := ce.Fun.(*ast.Ident)
+			if !ok || seen[id.Name] || targets[id.Name] || robustOwnTies[id.Name] {
+				return true
+			}
+			hf, hfd := pkgFunc(rel, id.Name)
+			if hfd == nil {
+				return true
+			}
+			seen[id.Name] = true
+			hs, hl, hp, ho := hf.robustFacts(hfd)
+			pre := id.Name + ": "
+			for _, x := range hs {
+				sites = append(sites, site{x.kind, pre + x.base, x.index})
+			}
+			for _, x := range hl {
+				lens = append(lens, lenGuard{pre + x.x, x.op, x.n, x.how})
+			}
+			for _, x := range hp {
+				prefs = append(prefs, prefixGuard{pre + x.x, x.lit, x.how})
+			}
+			for _, x := range ho {
+				loops = append(loops, loopFact{pre + x.header, x.exits})
+			}
+			follow(hf, hfd, depth+1)
+			return true
+		})
+	}
+	follow(f, fd, 0)
+	return
 }
 
 func (f *File) robustFacts(fd *ast.FuncDecl) (sites []site, lens []lenGuard, prefs []prefixGuard, loops []loopFact) {
@@ -275,6 +353,13 @@ func countExits(body *ast.BlockStmt) int {
 
 func genRobust() {
 	l := newLean("Robust")
+	targetNames := map[string]bool{}
+	for _, t := range robustTargets {
+		n := t.fn
+		if i := strings.Index(n, "."); i < 0 {
+			targetNames[n] = true
+		}
+	}
 	for _, t := range robustTargets {
 		f := load(t.rel)
 		fd := f.fn(t.fn)
@@ -287,7 +372,7 @@ func genRobust() {
 			l.raw(fmt.Sprintf("def loops_%s : List (String × Nat) := [(\"missing\", 0)]\n", t.name))
 			continue
 		}
-		sites, lens, prefs, loops := f.robustFacts(fd)
+		sites, lens, prefs, loops := f.robustFactsDeep(t.rel, fd, targetNames)
 		var b strings.Builder
 		fmt.Fprintf(&b, "def sites_%s : List (String × String × String) := [", t.name)
 		for i, s := range sites {
